@@ -3,7 +3,7 @@
 PROPS = {
     'C18': {
         'level': 'proof',
-        'units': ['C18/bitenc'],
+        'units': ['C18/bitenc', 'C18/fenwick', 'C18/smallints'],
         'kani': [],
         'oracle': 'C18',
         'decided': ['BitEnc (every width 1..=8, all operations) equals a Vec<u8> of masked values'],
